@@ -186,7 +186,7 @@ def run_shape(shape, tier):
                 info["compile"] = f"{type(e).__name__} (see C08)"
         return obs
 
-    res = explore(h, max_paths=600, wall_s=150)
+    res = explore(h, max_paths=600 if len(shape["params"]) < 6 else 4000, wall_s=150)
     out = res.as_dict()
     out["shape"] = {"kind": kind, "prog": fmt(prog)}
     out["sample"] = {"kind": kind, "program": fmt(prog), "conformed": info.get("tree"), "paths": res.paths}
